@@ -54,6 +54,7 @@ def run_prop(prop, ids):
                 case = payload.get("case")
                 if isinstance(case, dict) and "ops" in case and "device" in case and n < 2:
                     out_f = Path(f"/verif/corpus/{prop}/seeded-{sid}-{n}.json")
+                    out_f.parent.mkdir(parents=True, exist_ok=True)
                     if not out_f.exists():
                         out_f.write_text(json.dumps(case))
                     n += 1
